@@ -1,8 +1,13 @@
 package gx
 
 import (
+	"bytes"
 	"encoding/json"
 	"fmt"
+	"os"
+	"os/exec"
+
+	"github.com/opsidian/parsley/parsley"
 
 	"verif/mc/explore"
 	"verif/mc/gram"
@@ -34,7 +39,7 @@ const (
 	budgetResults = 100000
 )
 
-func c02Grammar(res *explore.Result, g *gram.Grammar, inputs [][]byte, keepGoing bool) {
+func c02Grammar(res *explore.Result, g *gram.Grammar, inputs [][]byte, keepGoing bool, burn int) {
 	an := gram.Analyze(g)
 	if !an.RepsConsume {
 		res.Add("grammars_rejected_nullable_repetition", 1)
@@ -48,21 +53,33 @@ func c02Grammar(res *explore.Result, g *gram.Grammar, inputs [][]byte, keepGoing
 	if !an.Stratified {
 		res.Add("grammars_unstratified_included", 1)
 	}
-	b := impl.Build(g, impl.Options{})
+	b := impl.Build(g, impl.Options{BurnBeforeLastShared: burn})
 	b.Mon.BudgetCalls, b.Mon.BudgetRes = budgetCalls, budgetResults
 	gs := g.String()
 	violated := false
 	explosiveFrom := -1 // inputs are ordered by length: once the work meter trips at length l, longer inputs only get worse
 	for _, w := range inputs {
+		if violated && !keepGoing {
+			return // one violating input per grammar is enough (and a broken parser may not be safe to keep driving)
+		}
 		if explosiveFrom >= 0 && len(w) >= explosiveFrom {
 			res.Add("cases_skipped_after_meter_tripped", int64(len(w)+1)*int64(len(b.NT)))
 			continue
 		}
 		for s := 0; s <= len(w); s++ {
-			for nt := range b.NT {
+			for nt := -1; nt < len(b.NT); nt++ {
+				// entry points: every nonterminal, and the root expression when the grammar has one
+				var entry parsley.Parser
+				if nt >= 0 {
+					entry = &b.NT[nt]
+				} else if g.Root != nil {
+					entry = b.Root
+				} else {
+					continue
+				}
 				ctx, r, _ := impl.NewContext(w)
 				b.Mon.Reset()
-				o := b.Run(ctx, &b.NT[nt], r.Pos(s))
+				o := b.Run(ctx, entry, r.Pos(s))
 				res.Add("states", 1)
 				res.Add("transitions", b.Mon.InnerCalls)
 				res.Add("traces", 1)
@@ -70,7 +87,15 @@ func c02Grammar(res *explore.Result, g *gram.Grammar, inputs [][]byte, keepGoing
 					res.Add("nontrivial", 1)
 				}
 				res.Outcome(fmt.Sprintf("max_active=%d,remaining=%d", b.Mon.MaxActive, len(w)-s))
-				c := Case{Placement: impl.Placement, Grammar: gs, Input: string(w)}
+				c := Case{Placement: impl.Placement, Prior: b.MemoBefore, Grammar: gs, Input: string(w), Burn: burn}
+				if burn > 0 && o.Budget != "" {
+					// these grammars have finitely many parses: running out of the work meter means the parse does not terminate
+					if !violated || keepGoing {
+						res.Violate("does-not-terminate", fmt.Sprintf("%s, parsing N%d at %d with the last shared parser built %d Memoize calls after the others: still running after %d calls", c, nt, s, burn, budgetCalls), c)
+					}
+					violated = true
+					continue
+				}
 				switch {
 				case o.Depth != "":
 					if !violated || keepGoing {
@@ -99,21 +124,52 @@ func c02Grammar(res *explore.Result, g *gram.Grammar, inputs [][]byte, keepGoing
 
 func c02Run(env *explore.Env) *explore.Result {
 	res := explore.NewResult()
+	if env.Shard == 0 {
+		// first, and flushed: the far-apart cache index scenarios
+		for _, src := range farIndexGrammars {
+			g, err := gram.Parse(src)
+			if err != nil {
+				continue
+			}
+			for _, burn := range farIndexBurns() {
+				res.Add("far_index_builds", 1)
+				c02Grammar(res, g, gram.Inputs(ab, 3), false, burn)
+				res.Flush()
+			}
+		}
+	}
 	eachGrammarPlaced(env, res, c02Specs(env.Tier), seedCorpus, func(g *gram.Grammar, inputs [][]byte, _ bool) {
-		c02Grammar(res, g, inputs, false)
+		c02Grammar(res, g, inputs, false, 0)
 	})
 	return res
 }
 
 func c02Replay(raw json.RawMessage) *explore.Result {
 	res := explore.NewResult()
+	var crash struct {
+		Shard  *int   `json:"crashed_shard"`
+		Shards int    `json:"shards"`
+		Tier   string `json:"tier"`
+		Seed   int64  `json:"seed"`
+	}
+	if json.Unmarshal(raw, &crash) == nil && crash.Shard != nil {
+		// re-run that worker: the case reproduces if it dies of a fatal runtime error again
+		self, _ := os.Executable()
+		cmd := exec.Command(self, "worker", "C02", crash.Tier, fmt.Sprint(*crash.Shard), fmt.Sprint(crash.Shards), fmt.Sprint(crash.Seed))
+		cmd.Env = append(os.Environ(), "GOMAXPROCS=1", "GOTRACEBACK=single")
+		out, err := cmd.CombinedOutput()
+		if err != nil && (bytes.Contains(out, []byte("fatal error")) || bytes.Contains(out, []byte("out of memory"))) {
+			res.Violate("worker-crash", "the worker died of a fatal runtime error again", json.RawMessage(raw))
+		}
+		return res
+	}
 	c, g, err := parseCase(raw)
 	if err != nil {
 		res.Notes = append(res.Notes, "bad case: "+err.Error())
 		return res
 	}
 	res.Notes = append(res.Notes, "case: "+c.String())
-	c02Grammar(res, g, [][]byte{[]byte(c.Input)}, true)
+	c02Grammar(res, g, [][]byte{[]byte(c.Input)}, true, c.Burn)
 	return res
 }
 
@@ -123,9 +179,10 @@ func init() {
 		Level: "model_checking",
 		Rule: "every grammar of the stated spaces whose repetition operands consume input (unstratified, cyclic and unproductive ones included) x every input x every start position x every nonterminal, " +
 			"run on the real parsers with a probe inside each Memoize; transition = one execution of a memoized body; non-trivial = a case in which some memoized parser was re-entered at the same position (>= 2 simultaneously active executions)",
-		Assume: []string{"single-byte terminals a,b; grammars and inputs above the bounds are not covered", "a<->b symmetric grammars are represented by one member"},
-		Run:    c02Run,
-		Replay: c02Replay,
-		Bounds: func(tier string) map[string]any { return boundsOf(c02Specs(tier), seedCorpus) },
+		Assume:           []string{"single-byte terminals a,b; grammars and inputs above the bounds are not covered", "a<->b symmetric grammars are represented by one member"},
+		Run:              c02Run,
+		CrashIsViolation: true,
+		Replay:           c02Replay,
+		Bounds:           func(tier string) map[string]any { return boundsOf(c02Specs(tier), seedCorpus) },
 	})
 }
